@@ -1,5 +1,6 @@
 """C16 - equilibrium compositions (the clauses visible in the shape of the code)."""
 import ast
+import itertools
 from fractions import Fraction as Fr
 
 from ..nf import Rat, C
@@ -10,21 +11,37 @@ from .common import same, show, opaque_obj
 EQ = 'pmutt.equilibrium.Equilibrium'        # the public path; the defining module is found through the re-export
 
 
-def build(I, repo, ns, ne):
+MODEL_FORMS = ('model in the order of the network', 'model in another order with a species more, as a dict',
+               'model in another order with a species more, as a list')
+
+
+def build(I, repo, net, form):
+    """the problem built through the public constructor: concrete compositions, symbolic feed amounts; the model may
+    hold the species in another order than the network and species the network does not name"""
     D = I.D
     ci = repo.cls(EQ)
-    names = ['sp%d' % i for i in range(ns)]
+    names = [nm for nm, _ in net]
+    comps = dict(net)
+    sp = {}
+    for nm, comp in list(net) + [('Xe2', {'Xe': 2})]:
+        o = opaque_obj(I, nm, {'get_GoRT': ('T',)})
+        o.attrs['elements'] = DictV({e: C(k) for e, k in comp.items()})
+        o.attrs['name'] = nm
+        sp[nm] = o
+    if form == MODEL_FORMS[0]:
+        order = names
+    else:
+        order = [names[-1], 'Xe2'] + names[:-1]
     model = DictV()
+    for nm in order:
+        model.d[nm] = sp[nm]
+    network = DictV()
     for nm in names:
-        model.d[nm] = opaque_obj(I, nm, {'get_GoRT': ('T',)})
-    M = ListV([ListV([D.sym('M%d%d' % (i, j)) for j in range(ne)]) for i in range(ns)])
-    for r in M.items:
-        r.is_array = True
-    M.is_array = True
-    F = ListV([D.sym('F%d' % j) for j in range(ne)])
-    F.is_array = True
-    eq = Obj('eq', ci, attrs={'species': ListV(list(names)), 'model': model, 'mol_elem': M, 'ele_feed': F})
-    return eq, names, model, M, F
+        network.d[nm] = D.sym('feed_' + nm)
+    eq = Obj('eq', ci, closed=True)
+    r = I.call_method(eq, '__init__', [], {'model': ListV(list(model.d.values())) if form == MODEL_FORMS[2] else model,
+                                           'network': network})
+    return eq, r, names, sp, comps
 
 
 def check(run, repo):
@@ -36,9 +53,13 @@ def check(run, repo):
         'the order of the amounts, and the Jacobian handed over is its exact gradient (symbolic differentiation, 2-4 '
         'species); (c) the equality constraint is x.M - feed.M-totals over the element matrix, its Jacobian is M '
         'transposed (the derivative of the constraint); (d) the lower bound of every amount is a positive constant; '
-        '(e) the returned mole fractions are x / sum(x) of the solver\'s amounts. (f) Equilibrium.__init__ is interpreted '
-        'for networks over 1-4 elements with concrete compositions and symbolic feeds, in both species orders: element '
-        'list, element matrix (atoms of element j in species i), feed element totals and molar masses.')
+        '(e) the returned mole fractions are x / sum(x) of the solver\'s amounts. The problems are built through the '
+        'public constructor for five networks over 1-4 elements with concrete compositions and symbolic feeds, with '
+        'the model in the order of the network and in another order with a species the network does not name (dict '
+        'and list). (f) Equilibrium.__init__ itself: element list, element matrix (atoms of element j in species i), '
+        'feed element totals and molar masses, in both species orders and with the permuted models. A warning counts '
+        'as a signal only if no filter installed by the package (module level, or an enclosing catch_warnings block) '
+        'discards it.')
     run.assumptions = ['scipy.optimize.minimize is an uninterpreted solver; SLSQP behaviour is not modelled']
     run.undecided = ['atom conservation, optimality and order independence of the returned composition as numeric '
                      'facts (SLSQP)', 'reaction equilibrium within solver tolerance']
@@ -46,14 +67,20 @@ def check(run, repo):
     for m_ in ('get_net_comp', '__init__'):
         run.fn(EQ + '.' + m_)
     owner, fn = repo.find_method(ci, 'get_net_comp')
-    for ns, ne in ((2, 1), (3, 2), (4, 3)):
+    for (nlabel, net), form in itertools.product(NETWORKS, MODEL_FORMS):
+        ns = len(net)
         for success in (True, False):
             I = Interp(repo)
             D = I.D
-            eq, names, model, M, F = build(I, repo, ns, ne)
+            eq, r0, names, sp, comps = build(I, repo, net, form)
+            label = '%s, %s' % (nlabel, form)
+            if isinstance(r0, Raised):
+                run.fail('REF.constructor', 'Equilibrium.__init__', label, '[%s] building the problem raises %s'
+                         % (label, r0.exc), owner.module, fn)
+                continue
             cap = {}
 
-            def mini(I_, fr, args, kwargs, nd, success=success):
+            def mini(I_, fr, args, kwargs, nd, success=success, ns=ns):
                 cap['fun'] = args[0] if args else kwargs.get('fun')
                 cap['x0'] = args[1] if len(args) > 1 else kwargs.get('x0')
                 cap.update(kwargs)
@@ -68,7 +95,6 @@ def check(run, repo):
             I.native['scipy.optimize.minimize'] = mini
             T, P = D.sym('T'), D.sym('P')
             res = I.call_method(eq, 'get_net_comp', [], {'T': T, 'P': P})
-            label = 'species=%d elements=%d' % (ns, ne)
             if not success:
                 signalled = isinstance(res, Raised) or len(I.warnings) > 0
                 run.check(signalled, 'PATH.solver-status', 'Equilibrium.get_net_comp', 'success=False',
@@ -108,7 +134,7 @@ def check(run, repo):
             fr_ = Frame(I, owner.module, {}, owner, eq)
             val = fr_.apply(fun, [xs] + list(args.items), {}, None)
             grad = fr_.apply(jac, [xs] + list(args.items), {}, None)
-            g = [model.d[nm].opaque_methods['get_GoRT'](I, model.d[nm], [], {'T': T}) for nm in names]
+            g = [sp[nm].opaque_methods['get_GoRT'](I, sp[nm], [], {'T': T}) for nm in names]
             nT = xs.items[0]
             for xi in xs.items[1:]:
                 nT = nT + xi
@@ -137,18 +163,30 @@ def check(run, repo):
             for cd in cons:
                 if isinstance(cd, DictV) and cd.d.get('type') == 'eq' and isinstance(cd.d.get('fun'), FuncRef):
                     cv = fr_.apply(cd.d['fun'], [xs], {}, None)
-                    wantc = [sum((xs.items[i] * M.items[i].items[j] for i in range(1, ns)),
-                                 xs.items[0] * M.items[0].items[j]) - F.items[j] for j in range(ne)]
-                    okc = isinstance(cv, ListV) and len(cv) == ne and all(same(a, b) for a, b in zip(cv.items, wantc))
+                    els = []
+                    for nm in names:
+                        els.extend(e for e in comps[nm] if e not in els)
+                    ne = len(els)
+                    # one balance per element of the network, in whatever order the elements are kept
+                    wantc = [sum((xs.items[i] * comps[nm].get(e, 0) - D.sym('feed_' + nm) * comps[nm].get(e, 0)
+                                  for i, nm in enumerate(names)), C(0)) for e in els]
+                    okc = isinstance(cv, ListV) and len(cv) == ne and all(isinstance(a, Rat) for a in cv.items)
+                    left = list(wantc)
+                    for a in (cv.items if okc else ()):
+                        hit = [w for w in left if a.eq(w)]
+                        if hit:
+                            left.remove(hit[0])
+                    okc = okc and not left
                     o3, f3 = (cd.d['fun'].owner or owner), cd.d['fun'].fn
                     run.check(okc, 'REF.constraint', 'Equilibrium.' + f3.name, label,
-                              'the equality constraint is %s, expected x.M - (element totals of the feed)' % show(cv, 160),
+                              'the equality constraint is %s, expected for every element of the network (atoms in x) - (atoms in '
+                              'the feed)' % show(cv, 160),
                               o3.module, f3)
                     jv = fr_.apply(cd.d['jac'], [xs], {}, None) if isinstance(cd.d.get('jac'), FuncRef) else None
-                    okjj = isinstance(cv, ListV) and isinstance(jv, ListV) and len(jv) == ne and all(
+                    okjj = isinstance(cv, ListV) and isinstance(jv, ListV) and len(jv) == len(cv) and all(
                         isinstance(jv.items[j], ListV) and len(jv.items[j]) == ns and
                         all(same(jv.items[j].items[i], D.d(cv.items[j], 'x%d' % i)) for i in range(ns))
-                        for j in range(ne))
+                        for j in range(len(cv)))
                     o4, f4 = ((cd.d['jac'].owner or owner), cd.d['jac'].fn) if isinstance(cd.d.get('jac'), FuncRef) \
                         else (owner, fn)
                     run.check(okjj, 'DERIV.constraint-jac', 'Equilibrium.' + f4.name, label,
@@ -168,6 +206,25 @@ def check(run, repo):
             x0 = cap.get('x0')
             run.check(isinstance(x0, ListV) and len(x0) == ns, 'DATAFLOW.solver-args', 'Equilibrium.get_net_comp',
                       label + ' x0', 'initial guess does not have one entry per species', owner.module, fn)
+            # the same object asked again at other conditions: the problem handed over is that of the new conditions
+            T2, P2 = D.sym('T2'), D.sym('P2')
+            cap.clear()
+            res2 = I.call_method(eq, 'get_net_comp', [], {'T': T2, 'P': P2})
+            fun2, args2 = cap.get('fun'), cap.get('args')
+            ok2 = isinstance(res2, Obj) and isinstance(fun2, FuncRef) and isinstance(args2, ListV) and len(args2) > 1
+            val2 = None
+            if ok2:
+                val2 = fr_.apply(fun2, [xs] + list(args2.items), {}, None)
+                g2 = [sp[nm].opaque_methods['get_GoRT'](I, sp[nm], [], {'T': T2}) for nm in names]
+                p2 = args2.items[1]
+                want2 = C(0)
+                for xi, gi in zip(xs.items, g2):
+                    want2 = want2 + xi * (gi + D.ln(xi * p2 / nT))
+                ok2 = isinstance(val2, Rat) and val2.eq(want2) and isinstance(p2, Rat) and \
+                    isinstance(p, Rat) and same(p2, p / P * P2)
+            run.check(ok2, 'REF.objective', 'Equilibrium.get_net_comp', label + ' second call at other conditions',
+                      'asked again at (T2, P2) the objective handed to the solver is %s, expected the sum with the '
+                      'species\' G/RT at T2 and the pressure P2' % show(val2, 200), owner.module, fn)
     constructor(run, repo)
 
 
@@ -194,23 +251,31 @@ def constructor(run, repo):
         raise AnchorError('pmutt.constants.atomic_weight not found')
     aw = {fold_value(cm, k): fold_num(cm, v).v for k, v in zip(node.keys, node.values)}
     n = 0
-    for label, net in NETWORKS:
-        for rev, as_list in ((False, False), (True, False), (False, True)):
+    for label0, net in NETWORKS:
+        for rev, as_list, perm in ((False, False, False), (True, False, False), (False, True, False),
+                                   (False, False, True), (True, True, True)):
+            label = label0
             order = list(reversed(net)) if rev else list(net)
             I = Interp(repo)
             D = I.D
             model = DictV()
             network = DictV()
-            for nm, comp in order:
+            # the model may hold the species in another order than the network, and species the network does not name
+            m_order = order if not perm else [order[-1], ('Xe2', {'Xe': 2})] + order[:-1]
+            for nm, comp in m_order:
                 sp = opaque_obj(I, nm, {'get_GoRT': ('T',)})
                 sp.attrs['elements'] = DictV({e: C(k) for e, k in comp.items()})
                 sp.attrs['name'] = nm
                 model.d[nm] = sp
+            for nm, comp in order:
                 network.d[nm] = D.sym('feed_' + nm)
             eq = Obj('eq', ci, closed=True)
-            key = '%s%s%s' % (label, ', reversed' if rev else '', ', species given as a list' if as_list else '')
+            key = '%s%s%s%s' % (label, ', reversed' if rev else '', ', species given as a list' if as_list else '',
+                                ', model in another order with a species more' if perm else '')
             if as_list:
                 label = label + ' [species list]'
+            if perm:
+                label = label + ' [model permuted]'
             r = I.call_method(eq, '__init__', [], {'model': ListV(list(model.d.values())) if as_list else model,
                                                    'network': network})
             n += 1
@@ -250,7 +315,7 @@ def constructor(run, repo):
                 isinstance(v, Rat) and v.eq(C(w)) for v, w in zip(got_W.items, want_W))
             run.check(okW, 'REF.constructor', 'Equilibrium.__init__', label + ' molar masses',
                       '[%s] species molar masses are %s' % (key, show(got_W, 160)), owner.module, fn)
-    run.floor('constructor networks', n, 8)
+    run.floor('constructor networks', n, 25)
 
 
 E_ = 'pmutt/equilibrium/_equilibrium.py'
@@ -265,5 +330,20 @@ MUTANTS = [
      'edits': [(E_, '        s = x.dot(self.mol_elem) - self.ele_feed', '        s = x.dot(self.mol_elem) + self.ele_feed')]},
     {'name': 'lower bound zero', 'expect': ('REF.bounds', 'get_net_comp'),
      'edits': [(E_, '        b = [1e-20, sum(self.ele_feed)]', '        b = [0., sum(self.ele_feed)]')]},
+    {'name': 'module-level filter discards the runtime warnings of the module', 'expect': ('PATH.solver-status', 'get_net_comp'),
+     'edits': [(E_, 'warnings.filterwarnings("ignore", "Values in x were outside bounds during a ")\n',
+                'warnings.filterwarnings("ignore", "Values in x were outside bounds during a ")\n'
+                'warnings.filterwarnings("ignore", category=RuntimeWarning, module=r"pmutt\\.equilibrium")\n')]},
+    {'name': 'status test inside a block that ignores all warnings', 'expect': ('PATH.solver-status', 'get_net_comp'),
+     'edits': [(E_, "        if not sol.success:\n", "        with warnings.catch_warnings():\n          warnings.simplefilter('ignore')\n          if not sol.success:\n"),
+               (E_, "            warnings.warn(warn_msg, RuntimeWarning)\n", "            warnings.warn(warn_msg, RuntimeWarning)\n          pass\n")]},
+    {'name': 'species order taken from the model list', 'expect': ('', 'Equilibrium'),
+     'edits': [(E_, "        self.species = list(self.network.keys())\n",
+                "        self.species = [s_.name for s_ in model if s_.name in self.network] if type(model) is list else list(self.network.keys())\n")]},
+    {'name': 'Gibbs energies collected in the order of the model', 'expect': ('REF.objective', ''),
+     'edits': [(E_, "        for x in self.species:\n            self.gibbs.append(self.model[x].get_GoRT(T=T))",
+                "        for x in self.model:\n          if x in self.species:\n            self.gibbs.append(self.model[x].get_GoRT(T=T))")]},
+    {'name': 'feed taken in the order of the model', 'expect': ('REF.constructor', '__init__'),
+     'edits': [(E_, "        feed = np.array(list(network.values()))", "        feed = np.array([network[k_] for k_ in self.model if k_ in network])")]},
 ]
 EQUIV = []
